@@ -418,3 +418,98 @@ func refLowerASCII(s string) string {
 	}
 	return string(b)
 }
+
+// ---- C17: reference check of wrapped text ----
+
+// refIsSpace: Unicode white space (what "words" are separated by).
+func refIsSpace(r rune) bool {
+	switch r {
+	case ' ', '\t', '\n', '\v', '\f', '\r', 0x85, 0xA0, 0x1680, 0x2028, 0x2029, 0x202F, 0x205F, 0x3000:
+		return true
+	}
+	return r >= 0x2000 && r <= 0x200A
+}
+
+type refCh struct {
+	c       rune
+	ws      bool // preceded by white space (or at the start)
+	lineEnd bool // last character of an output line
+}
+
+func refSplitLines(s string) []string {
+	var out []string
+	start := 0
+	for i := 0; i < len(s); i++ {
+		if s[i] == '\n' {
+			out = append(out, s[start:i])
+			start = i + 1
+		}
+	}
+	return append(out, s[start:])
+}
+
+// refWrapCheck judges the output o of wrapping the hyphen-free text d to
+// width l with continuation prefix p. It returns 0 if well-formed, else:
+// 1 continuation line lacks the prefix, 2 a line is wider than the width,
+// 3 a character was lost, altered or invented, 4 a word boundary changed
+// (other than at a hyphenated break), 5 text was left over.
+func refWrapCheck(d string, l int, p string, o string) int {
+	if l < 10 {
+		l = 10
+	}
+	var oc []refCh
+	for i, ln := range refSplitLines(o) {
+		if i > 0 && ln != "" {
+			if len(ln) < len(p) || ln[:len(p)] != p {
+				return 1
+			}
+			ln = ln[len(p):]
+		}
+		rs := []rune(ln)
+		if len(rs) > l {
+			return 2
+		}
+		ws := true
+		for j, r := range rs {
+			if refIsSpace(r) {
+				ws = true
+				continue
+			}
+			oc = append(oc, refCh{r, ws, j == len(rs)-1})
+			ws = false
+		}
+	}
+	var dc []refCh
+	ws := true
+	for _, r := range []rune(d) {
+		if refIsSpace(r) {
+			ws = true
+			continue
+		}
+		dc = append(dc, refCh{c: r, ws: ws})
+		ws = false
+	}
+	i, j := 0, 0
+	afterBreak := false
+	for i < len(oc) {
+		if oc[i].c == '-' && oc[i].lineEnd {
+			// an inserted break hyphen (d contains no '-')
+			i++
+			afterBreak = true
+			continue
+		}
+		if j >= len(dc) || oc[i].c != dc[j].c {
+			return 3
+		}
+		if oc[i].ws != dc[j].ws && !(afterBreak && oc[i].ws && !dc[j].ws) {
+			return 4
+		}
+		afterBreak = false
+		i++
+		j++
+	}
+	if j != len(dc) {
+		return 5
+	}
+	return 0
+}
